@@ -26,6 +26,7 @@ CInit ==
     sentItems |-> EmptyFn,   \* channel token of the producer -> items started
     open |-> {},             \* ids of API operations that have not returned
     faulty |-> {},           \* clients whose transport was made to fail (C15 driver)
+    cause |-> "",            \* termination cause injected by the fault-sweep driver ("" = none)
     quiescent |-> FALSE ]
 
 Bad(S, p, w) == IF S.ok THEN [S EXCEPT !.ok = FALSE, !.prop = p, !.why = w] ELSE S
@@ -69,6 +70,7 @@ CStep(S, r) ==
   ELSE CASE r.t = "api" -> OnApi(S, r)
     [] r.t = "fact" -> OnFact(S, r)
     [] r.t = "fault" -> [S EXCEPT !.faulty = @ \cup {r.cl}]
+    [] r.t = "cause" -> [S EXCEPT !.cause = r.cause]
     [] r.t = "quiescent" ->
          IF r.unfinished THEN Bad(S, "C06", "the system is quiescent but an application task is still waiting (lost wake-up or deadlock)")
          ELSE [S EXCEPT !.quiescent = TRUE]
@@ -82,13 +84,17 @@ CStep(S, r) ==
          ELSE IF StartsWith(r.conn, "panic") THEN Bad(S, "C06", "a connection task panicked: " \o r.conn)
          ELSE IF r.client = "running" THEN Bad(S, IF r.cl \in S.faulty THEN "C15" ELSE "C06", "a client's run future did not return")
          ELSE IF r.conn = "running" THEN Bad(S, IF r.cl \in S.faulty THEN "C15" ELSE "C06", "a connection task did not return")
-         ELSE IF r.cl \notin S.faulty /\ r.res # "ok" THEN Bad(S, "C06", "a client that was shut down cleanly returned " \o r.res)
+         ELSE IF r.cl \notin S.faulty /\ r.res # "ok" THEN
+                Bad(S, IF S.cause # "" THEN "C15" ELSE "C06",
+                    "a client that was shut down cleanly returned " \o r.res \o " (its connection task: " \o r.connRes \o ")")
          ELSE IF r.cl \in S.faulty /\ r.res = "ok" /\ r.strict THEN Bad(S, "C15", "a client whose transport failed returned ok")
          ELSE S
     [] r.t = "end" ->
          IF r.stuck THEN Bad(S, "C06", "the system did not become quiescent within the step bound")
          ELSE IF StartsWith(r.broker, "panic") THEN Bad(S, "C06", "the broker panicked: " \o r.broker)
-         ELSE IF r.broker # "done" THEN Bad(S, "C06", "the broker asked to stop when idle did not stop after all clients were gone")
+         \* a connection task that was dropped and never addressed again stays registered by design
+         \* (DESIGN 2.5), so the idle shutdown cannot complete in that case
+         ELSE IF r.broker # "done" /\ S.cause # "dropconn" THEN Bad(S, "C06", "the broker asked to stop when idle did not stop after all clients were gone")
          ELSE IF S.open # {} THEN Bad(S, "C15", "an operation was still pending at the end")
          ELSE S
     [] OTHER -> S
